@@ -57,7 +57,8 @@ else:
 XPATH_NSDICT = dict(xop=NS_XOP)
 
 
-def _join_attachment(ns_soap_env, href_id, envelope, payload, prefix=True):
+def _join_attachment(ns_soap_env, href_id, envelope, payload, prefix=True,
+                                                                   parser=None):
     """Places the data from an attachment back into a SOAP message, replacing
     its xop:Include element or href.
 
@@ -71,8 +72,12 @@ def _join_attachment(ns_soap_env, href_id, envelope, payload, prefix=True):
     :param  payload:  attachment data
     """
 
-    # grab the XML element of the message in the SOAP body
-    soaptree = etree.fromstring(envelope)
+    # grab the XML element of the message in the SOAP body. never with lxml's
+    # default parser: it resolves entities.
+    if parser is None:
+        parser = etree.XMLParser(resolve_entities=False, no_network=True,
+                                              load_dtd=False, huge_tree=False)
+    soaptree = etree.fromstring(envelope, parser)
     soapbody = soaptree.find("{%s}Body" % ns_soap_env)
 
     if soapbody is None:
@@ -139,6 +144,12 @@ def collapse_swa(ctx, content_type, ns_soap_env):
 
     envelope = list(envelope)
 
+    # the envelope is parsed with the options of the protocol's own parser.
+    parser = None
+    parser_kwargs = getattr(ctx.in_protocol, 'parser_kwargs', None)
+    if parser_kwargs is not None:
+        parser = etree.XMLParser(**parser_kwargs)
+
     # What an ugly hack...
     request = MIMEMultipart('related', boundary=boundary)
     msg_string = re.sub(r"\n\n.*", '', request.as_string())
@@ -180,13 +191,13 @@ def collapse_swa(ctx, content_type, ns_soap_env):
         # Check for Content-ID and make replacement
         if cid:
             soapmsg, numreplaces = _join_attachment(
-                                             ns_soap_env, cid, soapmsg, payload)
+                              ns_soap_env, cid, soapmsg, payload, parser=parser)
 
         # Check for Content-Location and make replacement
         if cloc and not cid and not numreplaces:
             soapmsg, numreplaces = _join_attachment(
                                             ns_soap_env, cloc, soapmsg, payload,
-                                                                          False)
+                                                           False, parser=parser)
 
     if soapmsg is None:
         raise ValidationError(None, "Invalid MtoM request")
